@@ -9,7 +9,7 @@ import (
 
 func init() {
 	register("C09",
-		"Decides the structural premises of the callback order: OnPrepare is invoked only in onPrepare and never after registration; a connection operator is registered (PollReadable) only by register(), which only onPrepare calls, last in init; OnConnect runs only for the winner of the none->connected CAS and under the processing lock, OnRequest under the same lock and deferred while OnConnect is unfinished; every OnDisconnect invocation is guarded by the connected->disconnected CAS or is the single call of the no-OnConnect branch, which is unconditional; after the connect task releases the connecting lock its first action is to re-read the closing state and help with OnDisconnect (hand-off with the poller that gave up); onHup runs onDisconnect before the callback runner; after the callback runner no user callback is reachable in any flow. Not decided: exactly-once of OnDisconnect under all schedules beyond these premises.",
+		"Decides the structural premises of the callback order: OnPrepare is invoked only in onPrepare and never after registration; a connection operator is registered (PollReadable) only by register(), which only onPrepare calls, last in init; OnConnect runs only for the winner of the none->connected CAS and under the processing lock, OnRequest under the same lock and deferred while OnConnect is unfinished; every OnDisconnect invocation is guarded by the connected->disconnected CAS or is the single call of the no-OnConnect branch, which is unconditional; after the connect task releases the connecting lock its first action is to re-read the closing state and help with OnDisconnect (hand-off with the poller that gave up); onHup runs onDisconnect before the callback runner; after the callback runner no user callback is reachable in any flow. The OnConnect/OnDisconnect options reach their setters; the handler task calls onDisconnect() before it runs the callbacks of a peer-closed connection (open finding F17). Not decided: exactly-once of OnDisconnect under all schedules beyond these premises.",
 		[]string{"sync/atomic is linearizable", "onHup is invoked at most once per connection (C11: hang-up reported once)"},
 		func(r *Run) {
 			cfgs := []string{"linux"}
